@@ -79,7 +79,10 @@ type be struct {
 	ownerB     bool // belongs to the second volume's controller
 }
 
-type frontend struct{ up bool }
+type frontend struct {
+	up      bool
+	resized int
+}
 
 func (f *frontend) Startup(string, string, string, int64, int64, types.IOs) error {
 	f.up = true
@@ -93,7 +96,7 @@ func (f *frontend) State() types.State {
 	return types.StateDown
 }
 func (f *frontend) Stats() types.Stats  { return types.Stats{} }
-func (f *frontend) Resize(uint64) error { return nil }
+func (f *frontend) Resize(uint64) error { f.resized++; return nil }
 
 type signal struct {
 	target, action string
@@ -134,6 +137,7 @@ type cluster struct {
 	nReads   int
 	nFaults  int
 	nDeletes int
+	nResizes int
 	attachAt map[int]int // be seq -> number of writes issued when it was attached
 	synced   map[int]bool
 	failedBE map[int]bool // be seq -> failed a call by script
